@@ -239,7 +239,7 @@ def main(argv=None):
                    violations=violations, known_hits=known_hits, only=a.only)
 
     for key, text, detail in known_hits:
-        print(f"KNOWN-FINDING: property={pid} {text}")
+        print(f"KNOWN-FINDING: {text}")
     for key, path, detail in violations:
         print(f"VIOLATION property={pid} replay={path}")
         print(f"  what: {key}: {str(detail)[:400]}")
